@@ -28,8 +28,13 @@ class KeepBytesIO(io.BytesIO):
         super().close()
 
 
+_PERIOD = bytes(((7 * i + 3) % 251) for i in range(251))
+
+
 def coded(n, start=0):
-    return bytes(((7 * i + 3) % 251) for i in range(start, start + n))
+    """Position-coded content: byte i of the stream is (7i+3) mod 251."""
+    off = start % 251
+    return (_PERIOD * ((n + off) // 251 + 2))[off:off + n]
 
 
 _CODED = coded(12 * 1012 + 64)
